@@ -172,6 +172,23 @@ theorem dec_total (c : RateCfg) (hc : c = rate12 ∨ c = rate34 ∨ c = rate1) (
   | undefined => rw [dec_undefined c hc f9 bs hl]; exact key _ (by simp)
   | _ => exact key _ (by simp)
 
+/-- the untyped decode (what the burst parser does) keeps all bits: the object re-serialises to the
+input and holds it as its data octets -/
+theorem dec_undefined_enc (c : RateCfg) (hc : c = rate12 ∨ c = rate34 ∨ c = rate1) (f9 : Bytes → Nat → Nat → Nat)
+    (bs : Bits) (hl : bs.length = 8 * c.total) :
+    ∃ q, dec c f9 .undefined bs = .ok q ∧ enc c q = bs ∧ q.data = bitsToBytes bs := by
+  have hb : (bitsToBytes bs).length = lenOf c .unconfirmed := by
+    rw [(lenOf_vals c hc).1]; exact bitsToBytes_length _ _ hl
+  rw [dec_undefined c hc f9 bs hl]
+  unfold dec
+  rw [if_neg (by simp [hl])]
+  simp only
+  rw [init_ok c hc f9 .unconfirmed _ hb]
+  refine ⟨_, rfl, ?_, rfl⟩
+  unfold enc
+  simp only [hb, typeOfLen_lenOf c hc]
+  exact bytesToBits_bitsToBytes _ _ hl
+
 /-- decoding any right-length block as variant `t` yields an object whose serialisation has the block
 length and decodes (as the variant it now has) to the same object -/
 theorem fixpoint (c : RateCfg) (hc : c = rate12 ∨ c = rate34 ∨ c = rate1) (f9 : Bytes → Nat → Nat → Nat)
